@@ -9,6 +9,27 @@ CHECKS = {
    technique="explicit-state BFS over merge/delete histories on the real functions, lock-step lumping model; exhaustive deletion sets n<=12",
    text="Every merge/delete history up to depth 3 over the full subset alphabet on 4-cell matrices (depth 2 on 5 cells), all 2^n-2 deletion sets and all single-group merges for n=9..12, and the cut_and_merge limit/energy menu are executed on the real code (dense and csr in lock-step) and compared exactly with a union-find lumping model; histories are the quantifier of the property, so a bounded-exhaustive history exploration is the right level.",
    note="Trusted: the 60-line union-find/lumping model in checks/c13.py; integer base matrices (exact arithmetic). Bound: n<=6 for deep histories, n<=12 for depth 1-2."),
+
+ "C12": dict(category="model_checking", design="DESIGN.md §5 C12",
+   technique="explicit-state BFS over all trajectories (append-one-symbol events) with counting model and incremental window conformance",
+   text="Every assigned trajectory over {0,1,2,NaN} up to length 6 (thorough 8; second alphabet with 4-5 cells) is a state; in every state the real MSM matrix for every tau in 1..4 (also tau > length), both window modes and two cell counts is compared entry-for-entry with the counting model, and the real window generators are compared incrementally with the parent state. Off-by-one and NaN-handling errors live at trajectory ends, which is exactly what all short sequences cover.",
+   note="Trusted: 30-line counting model transcribed from the statement. Bound: length <= 6/8, <= 5 symbols."),
+ "C01": dict(category="exploration", design="DESIGN.md §5 C01",
+   technique="exhaustive enumeration of sparsity patterns x energy alphabet x storage forms against a dense-loop oracle",
+   text="All symmetric sparsity patterns on 2..5 nodes x all energy vectors over a 5-letter alphabet that straddles the 500 kJ/mol cap x csr/coo storage pairs x temperatures are built with the real SQRA.get_rate_matrix and compared with the formula entry by entry, plus row sums, detailed balance per pair, shift invariance and linearity in D.",
+   note="Trusted: the dense double-loop oracle; fixed prime-based S, h, V tables. Real-valued inputs are represented by a structured finite alphabet only."),
+ "C16": dict(category="exploration", design="DESIGN.md §5 C16",
+   technique="exhaustive enumeration of the radial-grid input grammar against an exact-rational oracle",
+   text="Every string of the stated grammar (lists/tuples of up to 3-4 decimals in every order with whitespace variants, linspace and range/arange parameterisations, lists with a negative entry) is parsed by the real TranslationParser and compared with intended values computed in fractions.Fraction; increments, shell boundaries, interleaving and identifier consistency are checked on every result.",
+   note="Trusted: Fraction arithmetic oracle. Bound: decimals from an 8-value menu, list length <= 4."),
+ "C17": dict(category="exploration", design="DESIGN.md §5 C17",
+   technique="exhaustive enumeration of the grid-name token language (<=3/4 tokens, both roles) against stated constraints",
+   text="Every underscore-joined name of up to 3 (thorough 4) tokens over a 22-token alphabet is parsed for both roles; only the constraints in the statement are asserted (ValueError or valid algorithm_N, N=1 iff zero algorithm, default algorithm, ambiguity rejected, fixed point, constructible).",
+   note="Trusted: constraint predicates in checks/c17.py. Dimension-tag tokens are excluded as the statement leaves them open."),
+ "C19": dict(category="exploration", design="DESIGN.md §5 C19",
+   technique="exhaustive enumeration of the small-size configuration box x getters, outcome classification",
+   text="The full box n_b x n_o in 1..5 (thorough 1..8 and all algorithms) x 1-3 radii x both position modes is constructed and all five getters are called; each outcome must be an array of the right shape or ValueError (QhullError only in Cartesian mode with <3 directions).",
+   note="Trusted: outcome classification only (values are the subject of C02-C06)."),
 }
 NOT_YET = {}
 
